@@ -27,3 +27,34 @@ func VerifDelay(ctx context.Context, client *ent.Client, ids []uuid.UUID, secs f
 }
 
 func secondsToDuration(s float64) (d time.Duration) { return time.Duration(s * 1e9) }
+
+// VerifPushConn exposes the HTTP pusher's stream adapter (the object that turns
+// the outcome of each POST into acks / nacks and a flow-control window) so that
+// outcomes can be queued directly: kind 0 = fast success, 1 = slow success,
+// 2 = failure. Queues hold 10 entries each, as in production.
+type VerifPushConn struct{ c *httpPushStreamConn }
+
+func NewVerifPushConn() *VerifPushConn {
+	return &VerifPushConn{newHttpPushConn("projects/p/subscriptions/s", uuid.New(), "http://127.0.0.1:9/", nil)}
+}
+
+func (v *VerifPushConn) Queue(kind int, id uuid.UUID) {
+	switch kind {
+	case 0:
+		v.c.fastAckQueue <- id
+	case 1:
+		v.c.slowAckQueue <- id
+	default:
+		v.c.nackQueue <- id
+	}
+}
+
+func (v *VerifPushConn) Receive(ctx context.Context) (*MessageStreamRequest, error) {
+	return v.c.Receive(ctx)
+}
+
+func (v *VerifPushConn) Window() int {
+	v.c.mu.Lock()
+	defer v.c.mu.Unlock()
+	return v.c.maxMessages
+}
